@@ -2,3 +2,6 @@ import FpVerif.Properties.C01
 #print axioms Fp.C01.gen_ok
 #print axioms Fp.C01.bare_eq_spec
 #print axioms Fp.C01.ja3Header_eq_spec
+#print axioms Fp.C01.ja3_of_hello
+#print axioms Fp.C01.ja3_function_of_hello
+#print axioms Fp.C01.sampleHello_wf
